@@ -27,12 +27,28 @@ time stamps or map coordinates, whose magnitude is huge compared with the
 length-scales.  Theorem C02_gp_inputs_translation_invariant says the posterior
 cannot change.
 
+The caller's arguments (Properties/C02Inputs.v, Proofs/GpInputsProofs.v, Model/GpInputs.v):
+GpRegressor.__init__ and process_points turn what the caller hands over -- scalar, flat
+or 2-D; list, tuple or array; python ints / floats, numpy integers of any width, float32 --
+into the coordinate rows at which the kernels are evaluated.  The model is polymorphic
+in the entries (nothing is ever converted), evaluated by vm_compute on the exact values
+(coq/gen/C02/inputs_0.v) and compared exactly with gp.n_dimensions, gp.x and
+gp.process_points(points) of every case.  One fifth of the configurations is run a
+further time on INTEGER-VALUED data (grid stride 1 .. 3.6e12: sample indices, pixel
+numbers, seconds, nano-seconds; half of the wide dtypes with an offset as above) held
+as int64 / int32 / int16 / int8 / uint8 / uint16 arrays or python ints, queried at
+fractional positions held as float64, float32, python numbers or (integral ones) int64.
+Theorem C02_inputs_depend_on_values_only says that the posterior is that of the same
+numbers held as float64; the kernel / mean values the regressor uses are tied to the
+exact coordinates by the coq-interval goals as for any case.
+
 If anything disagrees, the property itself is evaluated on the implementation
 (closed form in exact rationals from the implementation's own matrices,
 variance bounds, training-order permutation, y_err versus diag y_cov, and -- for
 offset data -- the closed form with the kernel matrices of the same data moved
 back to the origin; the closed form with cross-covariances taken from
-build_covariance on training + query points).
+build_covariance on training + query points; for data held in another dtype the run on the
+same numbers held as float64).
 """
 from __future__ import annotations
 
@@ -70,7 +86,25 @@ REFINEMENT_THEOREMS = ["GpRefinement_q2r_morphism", "GpRefinement_repr_functiona
                        "GpRefinement_ListOps_inverse_failure", "GpRefinement_ListOps_posterior",
                        "GpRefinement_ListOps_posterior_as_run"]
 
+# Properties/C02Inputs.v: the caller's x / points -> coordinate rows (Model/GpInputs.v); the posterior
+# depends on the real VALUES of the coordinates only, not on the dtype / container that holds them
+INPUT_THEOREMS = ["C02_process_points_values", "C02_training_points_values", "C02_process_points_accepts",
+                  "C02_normalisation_natural", "C02_inputs_depend_on_values_only",
+                  "C02_query_cast_to_training_dtype_refuted", "C02_squared_distance_exact",
+                  "C02_squared_distance_pinned_refuted", "C02_squared_distance_pinned_small"]
+
 HEADER = MX.HEADER.format(mods="Matrix.GpModel Matrix.GpCheck")
+INPUTS_HEADER = """From Coq Require Import List QArith.
+From IT Require Import Model.GpInputs.
+Import ListNotations.
+Open Scope Q_scope.
+"""
+INPUT_OBLIGATIONS = {
+    1: "GpRegressor.__init__: n_dimensions / the stored training coordinates differ from the caller's x "
+       "(Model/GpInputs.v norm_x)",
+    2: "process_points: the coordinate rows handed to the kernels differ from the caller's points "
+       "(Model/GpInputs.v process_points)",
+}
 KCASES_HEADER = """From Coq Require Import Reals List.
 From IT Require Import Model.Slices RealModel.Kernels RealModel.Means Proofs.GpTranslationProofs.
 Import ListNotations.
@@ -116,6 +150,23 @@ ERRS = [("none", "array"), ("y_err", "array"), ("y_err", "list"), ("y_cov", "arr
 N_WEIGHTS = {2: 3, 3: 4, 4: 4, 5: 4, 6: 3, 7: 2, 8: 1}
 COND_MAX = 1e4
 
+# integer-valued data: the dtype / container holding the training coordinates, largest magnitude it
+# can hold (2^53 where float64 has to hold the same numbers exactly) and the strides (distance
+# between neighbouring grid positions) that are tried
+# (float32 is left to the query points: numpy forms x.mean() of a float32 array in single precision, so the
+# mean functions centre on a value that is 6e-8 off -- single-precision data, not a defect, but beyond the
+# 1e-9 of the kernel / mean-value goals)
+INT_DTYPES = ["int64", "int32", "pyint", "int16", "uint8", "uint16", "int8"]
+DTYPE_RANGE = {"int64": (-2 ** 53, 2 ** 53), "pyint": (-2 ** 53, 2 ** 53), "int32": (-2 ** 31, 2 ** 31 - 1),
+               "int16": (-2 ** 15, 2 ** 15 - 1), "uint16": (0, 2 ** 16 - 1), "int8": (-128, 127),
+               "uint8": (0, 255)}
+DTYPE_STRIDES = {"int64": [1, 1, 2, 10, 60, 1000, 86400, 10 ** 6, 10 ** 9, 3600 * 10 ** 9],
+                 "pyint": [1, 1, 2, 10, 60, 1000, 86400, 10 ** 6, 10 ** 9, 3600 * 10 ** 9],
+                 "int32": [1, 1, 2, 10, 60, 1000, 86400, 10 ** 6, 10 ** 8],
+                 "int16": [1, 2, 10, 60, 1000, 2000], "uint16": [1, 10, 100, 4000],
+                 "int8": [1, 2, 4, 7], "uint8": [1, 2, 8, 15]}
+INT_GRID = 16          # training coordinates are stride * (0 .. INT_GRID)
+
 
 def GP():
     from inference.gp import GpRegressor
@@ -130,26 +181,54 @@ def grid(r, lo, hi, q=64):
 def gen_points(r, case):
     n, d, b = case["n"], case["d"], case["b"]
     x = np.array(MX.unhex(case["x"], (n, d)))
+    unit = case.get("unit") or 1.0      # integer-valued data: coordinate units per unit of the standard grid
     pts = []
     for _ in range(b):
         u = r.random()
         if u < 0.2:                       # exactly a training point
             pts.append(list(x[r.randrange(n)]))
         elif u < 0.3:                     # far outside the data
-            pts.append([grid(r, 6, 9) for _ in range(d)])
+            pts.append([grid(r, 6, 9) * unit for _ in range(d)])
         else:
-            pts.append([grid(r, -0.5, 4.5) for _ in range(d)])
+            pts.append([grid(r, -0.5, 4.5) * unit for _ in range(d)])
     return np.array(pts, dtype=float)
 
 
-def gen_case(r, k, tier):
+def rescale_hyperpars(case, hp, unit, lenfac):
+    """Hyper-parameters drawn for data in [0,4]^d expressed in the units of data in [0, 4*unit]^d:
+    length-scales and change-point widths times lenfac, change-point locations times unit, slopes of
+    the mean function divided by unit, curvatures by unit^2."""
+    n, d = case["n"], case["d"]
+    hp = list(hp)
+    m = MEAN_NP[case["mean"]](d)
+    _, scales, cps = kernel_layout(case["kernel"], n, d)
+    for idx, _k in scales:
+        hp[m + idx] += math.log(lenfac)
+    for loc, w, _ax in cps:
+        hp[m + loc] *= unit
+        hp[m + w] *= lenfac
+    if case["mean"] in ("linear", "quadratic"):
+        for j in range(1, 1 + d):
+            hp[j] /= unit
+    if case["mean"] == "quadratic":
+        for j in range(1 + d, 1 + 2 * d):
+            hp[j] /= unit ** 2
+    return hp
+
+
+def gen_case(r, k, tier, ints=None):
     """Configuration k.  The (kernel, mean, error-kind) grid is walked
     systematically so that every combination of kernel x mean and every error
-    kind occurs; everything else is random."""
+    kind occurs; everything else is random.
+    ints = {"dtype": .., "stride": s}: INTEGER-VALUED training coordinates s * (0 .. 16) per axis
+    (sample indices, pixel numbers, time stamps), to be held in that dtype; query points on the
+    s/16 grid; the hyper-parameters are those of the standard case in the units of the data."""
+    unit = 1.0 if ints is None else 4.0 * ints["stride"]
+    lenfac = unit
     kern = KERNELS[k % len(KERNELS)]
     mean = MEANS[(k // len(KERNELS)) % len(MEANS)]
     err_kind, container = ERRS[(k + k // (len(KERNELS) * len(MEANS))) % len(ERRS)]
-    ns = [n for n, w in N_WEIGHTS.items() for _ in range(w)]
+    ns = [n for n, w in N_WEIGHTS.items() for _ in range(w) if ints is None or n <= 6]
     n = r.choice(ns)
     d = r.choice([1, 1, 2, 2, 3])
     if MX.kernel_has(kern, "CP") and n < 3:
@@ -157,15 +236,20 @@ def gen_case(r, k, tier):
     b = r.randint(1, 5)
     # training inputs: distinct points of a 1/64 grid in [0,4]^d, well separated in 1-D
     while True:
-        x = np.array([[grid(r, 0, 4) for _ in range(d)] for _ in range(n)], dtype=float)
+        if ints is None:
+            x = np.array([[grid(r, 0, 4) for _ in range(d)] for _ in range(n)], dtype=float)
+        else:
+            x = np.array([[float(ints["stride"] * r.randint(0, INT_GRID)) for _ in range(d)] for _ in range(n)])
         dist = min(np.abs(x[i] - x[j]).max() for i in range(n) for j in range(i))
-        if dist >= 0.25:
+        if dist >= 0.25 * unit:
             break
     y = np.array([grid(r, -3, 3, 256) for _ in range(n)], dtype=float)
     case = {"n": n, "d": d, "b": b, "x": MX.hexlist(x), "y": MX.hexlist(y),
             "kernel": kern, "mean": mean,
             "x_form": r.choice(["2d", "2d", "list"] + (["1d"] if d == 1 else [])),
             "p_form": r.choice(["2d", "2d", "list"] + (["1d"] if d == 1 else []))}
+    if ints is not None:
+        case.update(x_dtype=ints["dtype"], unit=unit)
     case["points"] = MX.hexlist(gen_points(r, case))
     # error data
     e = np.array([grid(r, 0.15, 0.7, 256) for _ in range(n)], dtype=float)
@@ -186,19 +270,79 @@ def gen_case(r, k, tier):
     for attempt in range(200):
         noise_lo = 0.15 if attempt < 100 else 0.4
         hp = MX.mean_hyperpars(r, mean, d) + MX.kernel_hyperpars(r, kern, n, d, noise_lo=noise_lo)
+        if ints is not None:
+            hp = rescale_hyperpars(case, hp, unit, lenfac)
         case["hyperpars"] = MX.hexlist(hp)
         A = data_cov_float(case)
         if A is not None and np.all(np.isfinite(A)) and np.linalg.cond(A) <= COND_MAX:
             case["cond"] = float(np.linalg.cond(A))
             if r.random() < 0.35:      # reach the final hyper-parameters through set_hyperparameters
-                case["first_hyperpars"] = MX.hexlist(
-                    MX.mean_hyperpars(r, mean, d) + MX.kernel_hyperpars(r, kern, n, d, noise_lo=0.4))
+                fh = MX.mean_hyperpars(r, mean, d) + MX.kernel_hyperpars(r, kern, n, d, noise_lo=0.4)
+                if ints is not None:
+                    fh = rescale_hyperpars(case, fh, unit, lenfac)
+                case["first_hyperpars"] = MX.hexlist(fh)
             return case
         if attempt % 20 == 19:      # shorter length scales help when there is no noise term
+            if ints is not None:    # (the integer grid stays: the length-scales shrink instead)
+                lenfac /= 1.5
+                continue
             x = x * 1.5
             case["x"] = MX.hexlist(x)
             case["points"] = MX.hexlist(gen_points(r, case))
     raise RuntimeError("could not condition a case")
+
+
+def fits_dtype(case):
+    """All training coordinates are integers that the case's x_dtype holds exactly."""
+    dt = case.get("x_dtype")
+    if not dt:
+        return True
+    lo, hi = DTYPE_RANGE[dt]
+    x = MX.unhex(case["x"])
+    return all(float(v).is_integer() and lo <= v <= hi for v in x)
+
+
+def choose_point_repr(r, case):
+    """How the query points of an integer-data case are handed over: container (p_form) and number
+    type (p_dtype; None = float64 as everywhere else)."""
+    b, d = case["b"], case["d"]
+    p = MX.unhex(case["points"])
+    if b == 1 and r.random() < 0.6:
+        case["p_form"] = "scalar" if d == 1 else "point"
+    kinds = [None, None, None, "pymixed", "pymixed"]
+    if all(float(np.float32(v)) == v for v in p):
+        kinds.append("float32")
+    if all(float(v).is_integer() for v in p):
+        kinds += ["int64", "int64"]
+    case["p_dtype"] = r.choice(kinds)
+    if case["p_dtype"] == "pymixed":
+        # a python list whose FIRST numbers are ints and later ones floats: an integral point goes first
+        rows = p.reshape(b, d)
+        first = next((i for i in range(b) if all(float(v).is_integer() for v in rows[i])), None)
+        if first:
+            rows[[0, first]] = rows[[first, 0]]
+            case["points"] = MX.hexlist(rows)
+    return case
+
+
+def gen_int_case(r, k, j, tier):
+    """The j-th integer-data case: configuration k of the grid, training coordinates held in
+    INT_DTYPES[j % 7]; half of those whose dtype is wide enough also carry a large offset."""
+    dt = INT_DTYPES[j % len(INT_DTYPES)]
+    for _ in range(20):
+        stride = r.choice(DTYPE_STRIDES[dt])
+        try:
+            case = gen_case(r, k, tier, ints={"dtype": dt, "stride": stride})
+        except RuntimeError:          # could not be conditioned: other data
+            continue
+        assert fits_dtype(case)
+        choose_point_repr(r, case)
+        if dt in ("int64", "int32", "pyint") and r.random() < 0.5:
+            tc = gen_shift(r, case, emax=29 if dt == "int32" else 30)
+            if tc is not None:
+                return choose_point_repr(r, tc)      # (integral / float32-exact may have changed)
+        return case
+    raise RuntimeError("could not generate an integer-data case")
 
 
 def err_arrays(case):
@@ -324,17 +468,21 @@ def origin_case(case):
     return out
 
 
-def gen_shift(r, case):
-    """Integer offsets  +-[2^e, 2^(e+1)),  e in 10..30, independently per coordinate."""
-    while True:
+def gen_shift(r, case, emax=30):
+    """Integer offsets  +-[2^e, 2^(e+1)),  e in 10..30, independently per coordinate.  (Data held in
+    an integer dtype: redrawn until the dtype holds the translated coordinates; None if it never does.)"""
+    for _ in range(200):
         c = []
         for _ in range(case["d"]):
-            e = r.randint(10, 30)
+            e = r.randint(10, emax)
             c.append(r.choice([1, 1, -1]) * r.randint(1 << e, (2 << e) - 1))
         try:
-            return translate(case, c)
+            tc = translate(case, c)
         except AssertionError:      # more than 53 bits needed: draw again
             continue
+        if fits_dtype(tc):
+            return tc
+    return None
 
 
 def cov_hyperpars(case):
@@ -359,16 +507,68 @@ def rel_allowance(case, u, v):
 
 
 # ---------------------------------------------------------------- running the code
+def held(a, dtype, form):
+    """The (rows x d) float64 array `a` as the caller holds it: `dtype` None (float64), a numpy dtype
+    name, 'pyint' (python ints) or 'pymixed' (python ints where integral, python floats elsewhere);
+    `form` '2d', 'list' (list of rows), '1d' (flat), 'scalar' (one number), 'point' (one flat point).
+    The conversion must be exact: these are the SAME real numbers."""
+    a = np.asarray(a, dtype=float)
+    if dtype in ("pyint", "pymixed"):
+        def num(v):
+            if dtype == "pyint" or float(v).is_integer():
+                assert float(v).is_integer()
+                return int(v)
+            return float(v)
+        rows = [[num(v) for v in row] for row in a]
+        if form == "scalar":
+            return rows[0][0]
+        if form == "point":
+            return rows[0]
+        if form == "1d":
+            return [v for row in rows for v in row]
+        return rows
+    if dtype:
+        t = a.astype(getattr(np, dtype))
+        assert np.array_equal(t.astype(float), a), f"{dtype} does not hold the coordinates exactly"
+        a = t
+    if form == "scalar":
+        return a[0, 0]
+    if form == "point":
+        return a[0]
+    if form == "1d":
+        return a.reshape(-1)
+    if form == "list":
+        return [row for row in a]
+    return a
+
+
+def arg_q(a, form):
+    """The Coq `arg Q` literal (Model/GpInputs.v) of the same argument: shape and exact values."""
+    a = np.asarray(a, dtype=float)
+    row = lambda rw: "[" + "; ".join(C.cq(v) for v in rw) + "]"
+    if form == "scalar":
+        return f"A0 {C.cq(a[0, 0])}"
+    if form == "point":
+        return f"A1 {row(a[0])}"
+    if form == "1d":
+        return f"A1 {row(a.reshape(-1))}"
+    return "A2 [" + "; ".join(row(rw) for rw in a) + "]"
+
+
+def exact_rows(arr):
+    """A 2-D array returned by the implementation as rows of exact Fractions (integer dtypes through
+    int, never through float)."""
+    arr = np.asarray(arr)
+    if arr.ndim != 2:
+        raise ValueError(f"expected a 2-D array, got shape {arr.shape}")
+    return [[C.frac(v) for v in row.tolist()] for row in arr]
+
+
 def build(case):
     n, d = case["n"], case["d"]
     x = MX.unhex(case["x"], (n, d))
     y = MX.unhex(case["y"])
-    if case["x_form"] == "1d":
-        xin = x.reshape(-1)
-    elif case["x_form"] == "list":
-        xin = [row for row in x]
-    else:
-        xin = x
+    xin = held(x, case.get("x_dtype"), case["x_form"])
     ye, yc = err_arrays(case)
     kw = {}
     if ye is not None:
@@ -401,6 +601,8 @@ def build(case):
 def query_arg(case):
     b, d = case["b"], case["d"]
     p = MX.unhex(case["points"], (b, d))
+    if case.get("p_dtype") or case["p_form"] in ("scalar", "point"):
+        return held(p, case.get("p_dtype"), case["p_form"]), p
     if case["p_form"] == "1d":
         return p.reshape(-1), p
     if case["p_form"] == "list":
@@ -424,6 +626,9 @@ def run_impl(case):
             jm, jc = gp.build_posterior(parg)
             stage = "build_posterior(mean_only=True)"
             mo = gp.build_posterior(parg, mean_only=True)
+            stage = "process_points"
+            out.update(n_dims=int(gp.n_dimensions), x_obs=exact_rows(gp.x),
+                       p_obs=exact_rows(gp.process_points(parg)))
             stage = "reading the kernel matrices"
             chp, mhp = gp.cov_hyperpars, gp.mean_hyperpars
             out.update(
@@ -489,6 +694,44 @@ def coq_case(case, out):
         ("t_f", MX.qtol(t["f"])), ("t_a", MX.qtol(t["a"])), ("t_m", MX.qtol(t["m"])), ("t_v", MX.qtol(t["v"])),
     ]
     return "{| " + ";\n   ".join(f"{k} := {v}" for k, v in f) + " |}"
+
+
+# ---------------------------------------------------------------- Coq side: the caller's arguments -> coordinate rows
+def coq_input_case(case, out):
+    n, d, b = case["n"], case["d"], case["b"]
+    x = MX.unhex(case["x"], (n, d))
+    p = MX.unhex(case["points"], (b, d))
+    rows = lambda rs: "[" + "; ".join("[" + "; ".join(C.cq(v) for v in rw) + "]" for rw in rs) + "]"
+    f = [("ic_n", C.cnat(n)), ("ic_xarg", arg_q(x, case["x_form"])), ("ic_parg", arg_q(p, case["p_form"])),
+         ("ic_d", C.cnat(out["n_dims"])), ("ic_x", rows(out["x_obs"])), ("ic_p", rows(out["p_obs"]))]
+    return "{| " + ";\n   ".join(f"{k} := {v}" for k, v in f) + " |}"
+
+
+def input_normalisation(rep, cases, outs, ok_idx, suspicious):
+    """Model/GpInputs.v evaluated inside Coq on the exact values of what the caller handed over against
+    the exact values of gp.n_dimensions, gp.x and gp.process_points(points); returns {case: [obligations]}."""
+    fail = {}
+    if not ok_idx:
+        return fail
+    body = ("Definition cases : list input_case :=\n [" +
+            ";\n  ".join(coq_input_case(cases[k], outs[k]) for k in ok_idx) + "].")
+    path = C.write_case_file(PROP, "inputs_0", INPUTS_HEADER, body, ["failing_inputs cases"])
+    ok, res, log = C.run_case_file(path, 900)
+    if not ok or 0 not in res:
+        rep.obligation(False, 2 * len(ok_idx))
+        rep.violation("C02/correspondence-run", f"case file {path.name} did not evaluate",
+                      {"theorem_or_correspondence": f"correspondence file {path.name}", "log": log}, False)
+        return fail
+    for j, obs in MX.decode_failures(res[0]).items():
+        fail[ok_idx[j]] = obs
+    nfail = sum(len(v) for v in fail.values())
+    rep.obligation(True, 2 * len(ok_idx) - nfail)
+    rep.obligation(False, nfail)
+    for k, obs in fail.items():
+        suspicious[k] = ((suspicious[k] + "; " if k in suspicious else "")
+                         + "; ".join(INPUT_OBLIGATIONS[o] for o in obs))
+    rep.coverage["input_normalisation_cases"] = len(ok_idx)
+    return fail
 
 
 # ---------------------------------------------------------------- Coq side: kernel / mean values from the coordinates
@@ -695,6 +938,31 @@ def builder_oracle(case, out):
             for m in oracle(case, hyb, extra_m=4 * relq * t["m"] / 1e-7, extra_v=4 * relq * t["v"] / 1e-7)]
 
 
+def dtype_oracle(case, out):
+    """C02 on the same real numbers held as float64 arrays (theorem C02_inputs_depend_on_values_only:
+    the five inputs of the GP model, hence the posterior, depend on the values of the coordinates only)."""
+    if not (case.get("x_dtype") or case.get("p_dtype")):
+        return []
+    twin = dict(case, x_dtype=None, p_dtype=None)
+    o2 = run_impl(twin)
+    what = (f"training coordinates held as {case.get('x_dtype') or 'float64'}, query points as "
+            f"{case.get('p_dtype') or 'float64'}, against the same numbers held as float64")
+    if o2["status"] != "ok":
+        return [f"{what}: {o2.get('error')}"]
+    t = tolerances(case, o2)
+    bad = []
+    for name, tol in (("call_mean", t["m"]), ("post_mean", t["m"]), ("mean_only", t["m"]), ("post_cov", t["v"])):
+        dm = float(np.abs(o2[name] - out[name]).max())
+        if dm > 10 * tol:
+            bad.append(f"{what}: {name} differs by {dm:.3e} (tol {10 * tol:.1e})")
+    dm = float(np.abs(o2["call_sig"] ** 2 - out["call_sig"] ** 2).max())
+    if dm > 10 * t["v"]:
+        bad.append(f"{what}: predictive variance differs by {dm:.3e} (tol {10 * t['v']:.1e})")
+    # ... and the float64 twin itself must be the closed-form posterior
+    bad += [f"{what}; the float64 run: " + m for m in oracle(twin, o2)]
+    return bad
+
+
 def metamorphic(case, out, r):
     """Training-order permutation and y_err <-> diag(y_err^2) on the real code."""
     bad = []
@@ -740,7 +1008,8 @@ def metamorphic(case, out, r):
 # ---------------------------------------------------------------- driver
 def describe(case):
     return {k: case.get(k) for k in ("n", "d", "b", "x", "y", "points", "kernel", "mean", "hyperpars",
-                                     "first_hyperpars", "err", "x_form", "p_form", "shift")}
+                                     "first_hyperpars", "err", "x_form", "p_form", "shift",
+                                     "x_dtype", "p_dtype", "unit")}
 
 
 def kernel_value_goals(rep, tier, cases, outs, ok_idx, suspicious):
@@ -754,16 +1023,21 @@ def kernel_value_goals(rep, tier, cases, outs, ok_idx, suspicious):
         big = {"Kqx": 4, "Kqq": 2, "kqq_pt": 1, "Kxx": 2, "mu": 1, "muq": 1}
     defs, goals, gmeta = [KCASES_HEADER], [], {}
     for k in ok_idx:
-        if not (cases[k].get("shift") or k % 4 == 0):
+        if not (cases[k].get("shift") or cases[k].get("x_dtype") or k % 4 == 0):
             continue
         defs.append(kcase_defs(cases[k], k))
         budget = dict(big if cases[k].get("shift") else small)
+        if cases[k].get("x_dtype"):       # K_xx is built from differences of the integer-typed array
+            if not cases[k].get("shift"):
+                budget = {"Kqx": 1, "Kqq": 0, "kqq_pt": 0, "Kxx": 2, "mu": 0, "muq": 1}
+            budget["Kxx"] = max(2, budget["Kxx"])
         if cases[k]["mean"] == "const":         # the model value is theta[0] itself: one goal is plenty
             budget["mu"] = 0
         for gid, stmt, meta in kernel_goals(cases[k], outs[k], k, rg, budget):
             goals.append((gid, stmt, None))
             gmeta[gid] = meta
-            rep.count("kernel-goal=" + meta["kind"] + (" (offset data)" if cases[k].get("shift") else ""))
+            rep.count("kernel-goal=" + meta["kind"] + (" (offset data)" if cases[k].get("shift") else "")
+                      + (" (integer-typed data)" if cases[k].get("x_dtype") else ""))
     gd = C.GEN / PROP
     gd.mkdir(parents=True, exist_ok=True)
     (gd / "KCases.v").write_text("\n".join(defs) + "\n")
@@ -810,6 +1084,15 @@ def run(rep: C.Report, tier: str) -> int:
         rep.violation("C02/proof", f"proof obligation no longer checks: {e.what}",
                       {"theorem_or_correspondence": e.what, "log": e.log[-1500:]}, False)
 
+    try:      # the caller's arguments -> coordinate rows; values only (Model/GpInputs.v)
+        info = C.coq_audit(PROP + "_inputs", INPUT_THEOREMS, "IT.Properties.C02Inputs")
+        rep.obligation(True, len(INPUT_THEOREMS))
+        rep.coverage["input_normalisation_audit"] = info
+    except C.ProofFailure as e:
+        rep.obligation(False, len(INPUT_THEOREMS))
+        rep.violation("C02/proof", f"proof obligation no longer checks: {e.what}",
+                      {"theorem_or_correspondence": e.what, "log": e.log[-1500:]}, False)
+
     try:      # the executable list-of-Q instance refines the MathComp instance (Matrix/Refinement*.v)
         info = C.coq_audit(PROP + "_refinement", REFINEMENT_THEOREMS, "IT.Properties.GpRefinement")
         rep.obligation(True, len(REFINEMENT_THEOREMS))
@@ -840,9 +1123,30 @@ def run(rep: C.Report, tier: str) -> int:
             rep.count("offset data: mean=" + case["mean"])
         else:
             rep.count("coordinates near the origin")
+        rep.count("training coordinates held as " + (case.get("x_dtype") or "float64"))
+        rep.count("query points held as " + (case.get("p_dtype") or "float64"))
+        rep.count("x given as " + case["x_form"])
+        rep.count("points given as " + case["p_form"])
+        if case.get("x_dtype"):
+            st = max(1, int(case["unit"] / 4))
+            rep.count("integer data: grid stride 1e%d..1e%d" % (3 * (int(math.log10(st)) // 3), 3 * (int(math.log10(st)) // 3) + 3))
+            rep.count("integer data: kernel=" + MX.kernel_name(case["kernel"]))
+            rep.count("integer data: mean=" + case["mean"])
+            sq = float(np.ptp(MX.unhex(case["x"], (case["n"], case["d"])), axis=0).max()) ** 2
+            lim = {"int64": 2.0 ** 63, "pyint": 2.0 ** 63, "int32": 2.0 ** 31, "int16": 2.0 ** 15, "uint16": 2.0 ** 16,
+                   "int8": 2.0 ** 7, "uint8": 2.0 ** 8}[case["x_dtype"]]
+            rep.count("integer data: largest squared distance " + ("EXCEEDS" if sq >= lim else "fits") + " the dtype")
         rep.case(describe(case), nontrivial=True)
 
+    ri = C.rng_for(PROP, "int-data")
+    n_int = 0
     for k in range(n_cases):
+        if k % 5 == 2:
+            # INTEGER-VALUED data held in an integer (or single-precision) dtype / as python ints, queried
+            # at fractional positions; 5 is coprime to 11, 3, 8 and 7: every kernel, mean, error kind and dtype
+            ic = gen_int_case(ri, k, n_int, tier)
+            n_int += 1
+            register(ic, run_impl(ic))
         case = gen_case(r, k, tier)
         out = run_impl(case)
         register(case, out)
@@ -891,6 +1195,7 @@ def run(rep: C.Report, tier: str) -> int:
     from concurrent.futures import ThreadPoolExecutor
     bg = ThreadPoolExecutor(max_workers=1)
     results_future = bg.submit(C.run_case_files, files, 10, 1500)
+    input_fail = input_normalisation(rep, cases, outs, ok_idx, suspicious)
     kernel_fail = kernel_value_goals(rep, tier, cases, outs, ok_idx, suspicious)
     results = results_future.result()
     bg.shutdown()
@@ -914,6 +1219,7 @@ def run(rep: C.Report, tier: str) -> int:
         n_checked += len(idx)
     rep.coverage["cases_validated_against_impl"] = n_checked
     rep.coverage["obligations_per_case"] = OBLIGATION_NAMES
+    rep.coverage["input_obligations_per_case"] = INPUT_OBLIGATIONS
 
     rep.coverage["correspondence_disagreements"] = len(suspicious)
 
@@ -924,6 +1230,8 @@ def run(rep: C.Report, tier: str) -> int:
         case, out = cases[k], outs[k]
         if out["status"] != "ok":
             key = "C02/exception"
+            if case.get("x_dtype") and run_impl(dict(case, x_dtype=None, p_dtype=None))["status"] == "ok":
+                key = "C02/dtype"          # the same numbers held as float64 are accepted
             if MX.kernel_has(case["kernel"], "HN") and case["d"] >= 2 and "broadcast" in out["error"]:
                 key = "C02/D11/HeteroscedasticNoise-call-shape"
             elif case["err"]["container"] != "array" and "shape" in out["error"]:
@@ -931,10 +1239,12 @@ def run(rep: C.Report, tier: str) -> int:
             rep.violation(key, f"GpRegressor failed on a valid input ({suspicious[k]})",
                           {"case": describe(case), "impl": {k2: out[k2] for k2 in ("status", "stage", "error")}}, True)
             continue
-        bad = oracle(case, out) + translation_oracle(case, out) + builder_oracle(case, out) + metamorphic(case, out, rs)
+        bad = (oracle(case, out) + dtype_oracle(case, out) + translation_oracle(case, out)
+               + builder_oracle(case, out) + metamorphic(case, out, rs))
         if bad:
             rep.violation("C02/property", "; ".join(bad[:3]),
                           {"case": describe(case), "failing_obligations": obligation_fail.get(k),
+                           "failing_input_obligations": input_fail.get(k),
                            "failing_kernel_goals": kernel_fail.get(k),
                            "impl_output": {n_: out[n_] for n_ in ("call_mean", "call_sig", "post_mean", "mean_only")}},
                           True)
@@ -942,11 +1252,15 @@ def run(rep: C.Report, tier: str) -> int:
             rep.violation("C02/correspondence",
                           "implementation and model disagree (" + suspicious[k] +
                           "), but the property was not seen to fail on this input",
-                          {"theorem_or_correspondence": "Matrix.GpCheck.check_gp (correspondence with GpRegressor)"
+                          {"theorem_or_correspondence": "Model.GpInputs.check_inputs (norm_x / process_points against "
+                           "GpRegressor.__init__ / process_points), coq/gen/C02/inputs_0.v"
+                           if k in input_fail and k not in obligation_fail and k not in kernel_fail else
+                           "Matrix.GpCheck.check_gp (correspondence with GpRegressor)"
                            if k not in kernel_fail else
                            "coq-interval goals gp_Kxx / gp_Kqx / gp_Kqq / gp_mu / gp_muq of coq/gen/C02 (kernel values "
                            "inside GpRegressor against RealModel/Kernels.v, RealModel/Means.v)",
                            "failing_obligations": obligation_fail.get(k),
+                           "failing_input_obligations": input_fail.get(k),
                            "failing_kernel_goals": kernel_fail.get(k), "case": describe(case)}, False)
 
     # second opinion [R]: the property oracle and the metamorphic relations on a slice of agreeing cases
@@ -969,6 +1283,16 @@ def run(rep: C.Report, tier: str) -> int:
         if bad:
             rep.violation("C02/property", "; ".join(bad[:3]), {"case": describe(cases[k])}, True)
     rep.coverage["translation_oracle_runs"] = n_tr
+    # ... and the float64 twin on every case whose coordinates are held in another dtype
+    n_dt = 0
+    for k in ok_idx:
+        if k in suspicious or not (cases[k].get("x_dtype") or cases[k].get("p_dtype")):
+            continue
+        bad = dtype_oracle(cases[k], outs[k])
+        n_dt += 1
+        if bad:
+            rep.violation("C02/property", "; ".join(bad[:3]), {"case": describe(cases[k])}, True)
+    rep.coverage["dtype_oracle_runs"] = n_dt
 
     rep.assumptions = [
         "SciPy/LAPACK cholesky and solve_triangular are exact in the theorems (L L^T = K_xx+S, L invertible); "
@@ -980,6 +1304,9 @@ def run(rep: C.Report, tier: str) -> int:
         "ListOps (list-of-Q instance, verified Bareiss inverse) implements the same algebra as the MathComp "
         "instance the theorems are about: not proved, see DESIGN 2.3",
         "sqrt in `sqrt(abs(errs))` is compared through sigma^2",
+        "numpy's array() of a python list / tuple keeps the values (python ints below 2^53, python floats); the "
+        "run compares gp.x and process_points(points) with the caller's values exactly, so a conversion that "
+        "changes a value is a disagreement",
     ]
     return rep.finish(
         level="proof",
@@ -987,6 +1314,7 @@ def run(rep: C.Report, tier: str) -> int:
                     "`interval` for the kernel-value goals)",
         trusted_base=C.KERNEL_TB + ["axioms: none for Properties/C02.v (closed under the global context); "
                                     "Properties/C02Kernel.v uses the standard-library real-number axioms",
+                                    "Properties/C02Inputs.v: standard-library real-number axioms (only where R occurs)",
                                     "Matrix/ListOps.v (executable matrix instance; inverse verified at run time)",
                                     "coq-interval 4.x reflexive interval evaluator (Uint63 / Bignums primitives)"],
         rule="configurations walk the grid kernel (11: SE, RQ, +WhiteNoise, +HeteroscedasticNoise, SE+RQ, SE+SE+WN, "
@@ -996,7 +1324,14 @@ def run(rep: C.Report, tier: str) -> int:
              "until cond(K_xx+S) <= 1e4; two fifths of the configurations are repeated on OFFSET DATA: an integer "
              "vector with entries +-[2^e, 2^(e+1)), e uniform in 10..30 per coordinate, is added (exactly) to all "
              "training and query points and to the change-point locations; kernel / mean values of every offset "
-             "case and every fourth other case become coq-interval goals; every case is non-trivial; "
+             "case and every fourth other case become coq-interval goals; one fifth of the configurations is run a "
+             "further time (own random stream) on INTEGER-VALUED data: training coordinates stride * (0..16) per axis, "
+             "stride from 1 to 3.6e12 as the dtype allows, held as int64 / int32 / python ints / int16 / uint8 / uint16 "
+             "/ int8 (walked; half of the int64 / int32 / python-int cases with an offset as above), query points on "
+             "the stride/16 grid held as float64, python numbers, float32 or int64 (where exact), given 2-D, as list "
+             "of rows, flat, as one scalar or as one flat point; hyper-parameters of the standard case in the units "
+             "of the data; the caller's arguments and the observed gp.x / process_points(points) of EVERY case go "
+             "through Model/GpInputs.v inside Coq (exact); every case is non-trivial; "
              "distinct = distinct configurations")
 
 
@@ -1013,7 +1348,7 @@ def replay(path):
     if out["status"] != "ok":
         print("implementation fails:", out)
         return 1
-    bad = (oracle(case, out) + translation_oracle(case, out) + builder_oracle(case, out)
+    bad = (oracle(case, out) + dtype_oracle(case, out) + translation_oracle(case, out) + builder_oracle(case, out)
            + metamorphic(case, out, C.rng_for(PROP, "replay")))
     print("implementation returns: call_mean", out["call_mean"], "call_sigma", out["call_sig"])
     print("property failures:", bad)
